@@ -58,6 +58,12 @@ func (s *sim) judgeCheckShow(st Step, res *world.Result, stderr string, fr *fres
 	// error classes
 	if !envTrouble && len(typeErrT) == 0 && res.Exit != 0 {
 		for _, n := range badT {
+			for _, extra := range Info(s.pkg(n).variant).Stems {
+				// a further, independent error class of the same package: check must name it whenever gen does
+				if strings.Contains(fr.stderr, extra) && !strings.Contains(stderr, extra) {
+					s.violate("C19", "A1", st.Cmd+"/missing-class/"+slug(extra), "diagnostic class \""+extra+"\" (gen reports it)", "not reported", fmt.Sprintf("package %s; %s", n, st))
+				}
+			}
 			stem := Info(s.pkg(n).variant).Stem
 			if strings.Contains(fr.stderr, stem) && !strings.Contains(stderr, stem) {
 				if Info(s.pkg(n).variant).CheckGap && len(badT) > 1 {
